@@ -853,6 +853,9 @@ func genC18(g *gen) {
 			sub := g.rng.intn(16)
 			for i := 0; i < lines; i++ {
 				procs := []int{16, 8, 16, 3, 2, 16, 8}[g.rng.intn(7)]
+				if i%2 == 0 { // at least every other line of a family with many processors
+					procs = 16
+				}
 				k := cost.k * g.budget(1, 3)
 				if k > 0x200 {
 					k = 0x200
